@@ -161,11 +161,15 @@ theorem parseAreaTemp_post (ctx : Ctx R) (kind : Nat) (corners : List (P2 R)) (m
     refine PostI.bind (PostI.triv_lift _) (fun b _ => ?_)
     refine PostI.bind (PostI.pmLift (getRidgeSpec_post c sph)) (fun rs hrs => ?_)
     exact PostI.pure (fun hs => ⟨⟨hrng, hrs hs⟩, trivial⟩)
-  · refine PostI.bind (PostI.triv_lift _) (fun t _ => ?_)
+  · extract_lets j1
+    pmi_guard j1
+    refine PostI.bind (PostI.triv_lift _) (fun t _ => ?_)
     refine PostI.bind (PostI.triv_lift _) (fun b _ => ?_)
     refine PostI.bind (PostI.pmLift (getRidgeSpec_post c sph)) (fun rs hrs => ?_)
     exact PostI.pure (fun hs => ⟨⟨hrng, hrs hs⟩, trivial⟩)
-  · refine PostI.bind (PostI.triv_lift _) (fun age _ => ?_)
+  · extract_lets j1
+    pmi_guard j1
+    refine PostI.bind (PostI.triv_lift _) (fun age _ => ?_)
     refine PostI.bind (PostI.triv_lift _) (fun t _ => ?_)
     refine PostI.bind (PostI.triv_lift _) (fun b _ => ?_)
     exact PostI.pure (fun _ => ⟨hrng, trivial⟩)
